@@ -167,8 +167,14 @@ fn judge(c: &C18Case, g: &Grouped, target: &PathBuf) -> Verdict {
     let before = Snapshot::take(&[&tree, target]);
     let mut dc = d.clone();
     dc.op = Op::Move;
+    // a relative DIR names a place under the directory `fclones move` is started in
+    let from_parent = !c.dir_via_link && c.relative_dir && d.move_target == 0 && d.tree.entries.len() % 2 == 0;
     let dir_arg: PathBuf = if c.dir_via_link {
         PathBuf::from("shelf/../dups")
+    } else if from_parent {
+        // relative to the working directory, which here is the parent of the tree root (and not the
+        // base directory recorded in the report header)
+        PathBuf::from("mv")
     } else if c.relative_dir && d.move_target < 2 {
         // relative to the working directory (= tree root)
         match d.move_target {
@@ -180,6 +186,9 @@ fn judge(c: &C18Case, g: &Grouped, target: &PathBuf) -> Verdict {
     };
     let (args, _) = dedupe_args(&dc, &files, &g.canon_roots, &dir_arg, false);
     let mut run = Run::fclones(&g.cd).args(&args).stdin(g.report_bytes.clone());
+    if from_parent {
+        run = run.cwd(&g.cd.base);
+    }
     if let Some((k, e)) = c.fault {
         run = run
             .env("LD_PRELOAD", SHIM)
@@ -188,11 +197,11 @@ fn judge(c: &C18Case, g: &Grouped, target: &PathBuf) -> Verdict {
             .env("FCV_FAULT", format!("{}:{}", k, FAULT_ERRNOS[e as usize % FAULT_ERRNOS.len()]))
             .env("RAYON_NUM_THREADS", "1");
     }
-    let cmd = format!("{}\n{} < report", g.group_cmd, run.cmdline());
+    let cmd = format!("{}\n{}{} < report", g.group_cmd, if from_parent { "cd .. && " } else { "" }, run.cmdline());
     let out = run.run();
     let injected = c.fault.is_some() && std::fs::read_to_string(g.cd.base.join("shim.log")).map(|l| l.contains("INJECTED")).unwrap_or(false);
     let after = Snapshot::take(&[&tree, target]);
-    let sig = vec![if c.dir_via_link { "target-via-symlink-dotdot".to_string() } else { format!("target-{}", d.move_target) }, if c.relative_dir { "relative-dir".to_string() } else { "absolute-dir".to_string() }];
+    let sig = vec![if c.dir_via_link { "target-via-symlink-dotdot".to_string() } else { format!("target-{}", d.move_target) }, if from_parent { "relative-dir-from-parent".to_string() } else if c.relative_dir { "relative-dir".to_string() } else { "absolute-dir".to_string() }];
     let dd = diff(&before, &after, false);
     let fail = |clause: &str, detail: String| Verdict::Fail {
         clause: clause.into(),
